@@ -150,25 +150,27 @@ pub fn vx_revs_entries<'a>(m: &'a HashMap<Revision, RevisionTreeEntry>) -> (v: V
         forall|i: int, j: int| 0 <= i < j < v.len() ==> *v@[i].0 != *v@[j].0,
 { unimplemented!() }
 
-/// what `RevisionTree::commit` guarantees (its `ensures` in unit `tree`, text copied; `vx_tree_commit` below PROVES that the
-/// real function, re-verified in this file, establishes it)
+/// what `RevisionTree::commit` guarantees (its `ensures` in unit `tree`, text copied; the committing pass of `Melda::commit`
+/// calls the real function, re-verified in this file, and proves this predicate from its contract)
 pub open spec fn tree_commit_post(o: RevisionTree, n: RevisionTree) -> bool {
     &&& forall|k: Revision| n.revisions@.contains_key(k) <==> o.revisions@.contains_key(k)
     &&& forall|k: Revision| #[trigger] n.revisions@.contains_key(k) ==> n.revisions@[k].parent == o.revisions@[k].parent && !n.revisions@[k].staging
     &&& !n.staging
     &&& n.leafs_cache@ == o.leafs_cache@ && n.winner_cache == o.winner_cache && n.state is Validated
 }
-/// verified link between `tree_commit_post` and the real `RevisionTree::commit` (and its real precondition)
-pub fn vx_tree_commit(t: &mut RevisionTree)
-    requires old(t).state is Validated, tree_inv(*old(t)),
-    ensures tree_commit_post(*old(t), *final(t)),
-{ t.commit(); }
-/// R12 + R6: `for (_, rt) in documents.iter() { let mut t = rt.lock().expect(..); t.commit(); }` — every tree gets
-/// `RevisionTree::commit` (precondition and postcondition of `vx_tree_commit`), no object is added or removed
+/// R18 + R6: the second and third pass over `documents` (`for (uuid, rt) in self.documents.read().unwrap().iter() { let [mut] g =
+/// rt.lock().expect(..); ..`) = a pass over an enumeration of the keys (each once; the key set cannot change while the read
+/// guard is held), the tree of each key being reached through its mutex: `vx_docs_tree_mut` (ASSUMED of std BTreeMap / Mutex)
 #[verifier::external_body]
-pub fn vx_docs_commit_all(m: &mut BTreeMap<String, RevisionTree>)
-    requires docs_inv(dmap(*old(m))),
-    ensures all_committed(dmap(*old(m)), dmap(*final(m))),
+pub fn vx_docs_keys(m: &BTreeMap<String, RevisionTree>) -> (v: Vec<String>)
+    ensures docs_enum(dmap(*m), v@),
+{ unimplemented!() }
+/// `rt.lock().expect(..)` on the entry of key `k`: exclusive access to the tree stored under `k`; nothing else in the map changes
+/// (same shape as `vx_docs_entry` of unit `apply`)
+#[verifier::external_body]
+pub fn vx_docs_tree_mut<'a>(m: &'a mut BTreeMap<String, RevisionTree>, k: &String) -> (r: &'a mut RevisionTree)
+    requires dmap(*old(m)).contains_key(k@),
+    ensures *r == dmap(*old(m))[k@], dmap(*final(m)) == dmap(*old(m)).insert(k@, *final(r)),
 { unimplemented!() }
 
 /// `BTreeSet::from([x])`
@@ -455,24 +457,24 @@ pub open spec fn replica_ok(m: Melda) -> bool {
 }
 
 // ================================================================ proof of E: step lemmas for the collecting loops
-pub type DocEnts<'a> = Seq<(&'a String, &'a RevisionTree)>;
+pub type DocEnts = Seq<String>;
 pub type RevEnts<'a> = Seq<(&'a Revision, &'a RevisionTreeEntry)>;
 pub open spec fn docs_enum(docs: Docs, ents: DocEnts) -> bool {
-    &&& forall|i: int| 0 <= i < ents.len() ==> docs.contains_key(#[trigger] ents[i].0@) && *ents[i].1 == docs[ents[i].0@]
-    &&& forall|k: Seq<char>| docs.contains_key(k) ==> exists|i: int| 0 <= i < ents.len() && #[trigger] ents[i].0@ == k
-    &&& forall|i: int, j: int| 0 <= i < j < ents.len() ==> (#[trigger] ents[i]).0@ != (#[trigger] ents[j]).0@
+    &&& forall|i: int| 0 <= i < ents.len() ==> docs.contains_key(#[trigger] ents[i]@)
+    &&& forall|k: Seq<char>| docs.contains_key(k) ==> exists|i: int| 0 <= i < ents.len() && #[trigger] ents[i]@ == k
+    &&& forall|i: int, j: int| 0 <= i < j < ents.len() ==> (#[trigger] ents[i])@ != (#[trigger] ents[j])@
 }
 pub open spec fn revs_enum(m: RevMap, revs: RevEnts) -> bool {
     &&& forall|i: int| 0 <= i < revs.len() ==> m.contains_key(*#[trigger] revs[i].0) && *revs[i].1 == m[*revs[i].0]
     &&& forall|k: Revision| m.contains_key(k) ==> exists|i: int| 0 <= i < revs.len() && *#[trigger] revs[i].0 == k
     &&& forall|i: int, j: int| 0 <= i < j < revs.len() ==> *(#[trigger] revs[i]).0 != *(#[trigger] revs[j]).0
 }
-pub open spec fn key_upto(ents: DocEnts, n: int, k: Seq<char>) -> bool { exists|j: int| 0 <= j < n && #[trigger] ents[j].0@ == k }
+pub open spec fn key_upto(ents: DocEnts, n: int, k: Seq<char>) -> bool { exists|j: int| 0 <= j < n && #[trigger] ents[j]@ == k }
 pub open spec fn rev_upto(revs: RevEnts, n: int, r: Revision) -> bool { exists|j: int| 0 <= j < n && *#[trigger] revs[j].0 == r }
 /// outer loop: the first n objects are done
 pub open spec fn collected(docs: Docs, ents: DocEnts, n: int, cs: Seq<Change>) -> bool {
     &&& forall|i: int| 0 <= i < cs.len() ==> is_record(docs, #[trigger] cs[i]) && key_upto(ents, n, cs[i].0@)
-    &&& forall|j: int, rev: Revision| 0 <= j < n && #[trigger] staged_entry(docs, ents[j].0@, rev) ==> has_record(cs, ents[j].0@, rev)
+    &&& forall|j: int, rev: Revision| 0 <= j < n && #[trigger] staged_entry(docs, ents[j]@, rev) ==> has_record(cs, ents[j]@, rev)
     &&& no_dup(cs)
 }
 /// inner loop: `cs0` was collected before this object, the first n entries of the object `uuid` are done
@@ -485,7 +487,7 @@ pub open spec fn collecting(docs: Docs, uuid: Seq<char>, revs: RevEnts, n: int, 
 }
 pub proof fn lemma_collecting_start(docs: Docs, ents: DocEnts, a: int, revs: RevEnts, cs0: Seq<Change>)
     requires collected(docs, ents, a, cs0),
-    ensures collecting(docs, ents[a].0@, revs, 0, cs0, cs0),
+    ensures collecting(docs, ents[a]@, revs, 0, cs0, cs0),
 { }
 pub proof fn lemma_collecting_skip(docs: Docs, uuid: Seq<char>, revs: RevEnts, b: int, cs0: Seq<Change>, cs: Seq<Change>)
     requires 0 <= b < revs.len(), collecting(docs, uuid, revs, b, cs0, cs), !revs[b].1.staging,
@@ -500,16 +502,16 @@ pub proof fn lemma_collecting_skip(docs: Docs, uuid: Seq<char>, revs: RevEnts, b
 pub proof fn lemma_collecting_push(docs: Docs, ents: DocEnts, a: int, revs: RevEnts, b: int, cs0: Seq<Change>, cs: Seq<Change>, cs2: Seq<Change>)
     requires
         0 <= a < ents.len(), 0 <= b < revs.len(),
-        docs_enum(docs, ents), revs_enum(docs[ents[a].0@].revisions@, revs),
-        collected(docs, ents, a, cs0), collecting(docs, ents[a].0@, revs, b, cs0, cs),
+        docs_enum(docs, ents), revs_enum(docs[ents[a]@].revisions@, revs),
+        collected(docs, ents, a, cs0), collecting(docs, ents[a]@, revs, b, cs0, cs),
         revs[b].1.staging,
         cs2.len() == cs.len() + 1, forall|i: int| 0 <= i < cs.len() ==> #[trigger] cs2[i] == cs[i],
-        cs2[cs.len() as int].0@ == ents[a].0@, cs2[cs.len() as int].1 == *revs[b].0, cs2[cs.len() as int].2 == revs[b].1.parent,
-    ensures collecting(docs, ents[a].0@, revs, b + 1, cs0, cs2),
+        cs2[cs.len() as int].0@ == ents[a]@, cs2[cs.len() as int].1 == *revs[b].0, cs2[cs.len() as int].2 == revs[b].1.parent,
+    ensures collecting(docs, ents[a]@, revs, b + 1, cs0, cs2),
 {
-    let uuid = ents[a].0@;
+    let uuid = ents[a]@;
     let c = cs2[cs.len() as int];
-    assert(docs.contains_key(ents[a].0@));
+    assert(docs.contains_key(ents[a]@));
     assert(docs[uuid].revisions@.contains_key(*revs[b].0) && *revs[b].1 == docs[uuid].revisions@[*revs[b].0]);
     assert(is_record(docs, c));
     assert forall|i: int| 0 <= i < cs0.len() implies #[trigger] cs2[i] == cs0[i] by { assert(cs2[i] == cs[i]); }
@@ -539,8 +541,8 @@ pub proof fn lemma_collecting_push(docs: Docs, ents: DocEnts, a: int, revs: RevE
             if i < cs0.len() {
                 assert(cs[i] == cs0[i]);
                 assert(key_upto(ents, a, cs0[i].0@));
-                let k = choose|k: int| 0 <= k < a && #[trigger] ents[k].0@ == cs0[i].0@;
-                assert(ents[k].0@ != ents[a].0@);
+                let k = choose|k: int| 0 <= k < a && #[trigger] ents[k]@ == cs0[i].0@;
+                assert(ents[k]@ != ents[a]@);
             } else {
                 assert(rev_upto(revs, b, cs[i].1));
                 let k = choose|k: int| 0 <= k < b && *#[trigger] revs[k].0 == cs[i].1;
@@ -552,25 +554,25 @@ pub proof fn lemma_collecting_push(docs: Docs, ents: DocEnts, a: int, revs: RevE
 pub proof fn lemma_collecting_done(docs: Docs, ents: DocEnts, a: int, revs: RevEnts, cs0: Seq<Change>, cs: Seq<Change>)
     requires
         0 <= a < ents.len(),
-        docs_enum(docs, ents), revs_enum(docs[ents[a].0@].revisions@, revs),
-        collected(docs, ents, a, cs0), collecting(docs, ents[a].0@, revs, revs.len() as int, cs0, cs),
+        docs_enum(docs, ents), revs_enum(docs[ents[a]@].revisions@, revs),
+        collected(docs, ents, a, cs0), collecting(docs, ents[a]@, revs, revs.len() as int, cs0, cs),
     ensures collected(docs, ents, a + 1, cs),
 {
-    let uuid = ents[a].0@;
+    let uuid = ents[a]@;
     assert forall|i: int| 0 <= i < cs.len() implies is_record(docs, #[trigger] cs[i]) && key_upto(ents, a + 1, cs[i].0@) by {
         if i < cs0.len() {
             assert(cs[i] == cs0[i]);
             assert(key_upto(ents, a, cs0[i].0@));
-            let k = choose|k: int| 0 <= k < a && #[trigger] ents[k].0@ == cs0[i].0@;
-            assert(0 <= k < a + 1 && ents[k].0@ == cs[i].0@);
+            let k = choose|k: int| 0 <= k < a && #[trigger] ents[k]@ == cs0[i].0@;
+            assert(0 <= k < a + 1 && ents[k]@ == cs[i].0@);
         } else {
-            assert(0 <= a < a + 1 && ents[a].0@ == cs[i].0@);
+            assert(0 <= a < a + 1 && ents[a]@ == cs[i].0@);
         }
     }
-    assert forall|j: int, rev: Revision| 0 <= j < a + 1 && #[trigger] staged_entry(docs, ents[j].0@, rev) implies has_record(cs, ents[j].0@, rev) by {
+    assert forall|j: int, rev: Revision| 0 <= j < a + 1 && #[trigger] staged_entry(docs, ents[j]@, rev) implies has_record(cs, ents[j]@, rev) by {
         if j < a {
-            assert(has_record(cs0, ents[j].0@, rev));
-            let i = choose|i: int| 0 <= i < cs0.len() && (#[trigger] cs0[i]).0@ == ents[j].0@ && cs0[i].1 == rev;
+            assert(has_record(cs0, ents[j]@, rev));
+            let i = choose|i: int| 0 <= i < cs0.len() && (#[trigger] cs0[i]).0@ == ents[j]@ && cs0[i].1 == rev;
             assert(cs[i] == cs0[i]);
         } else {
             let k = choose|k: int| 0 <= k < revs.len() && *#[trigger] revs[k].0 == rev;
@@ -583,13 +585,13 @@ pub proof fn lemma_collecting_done(docs: Docs, ents: DocEnts, a: int, revs: RevE
 pub proof fn lemma_collected_skip(docs: Docs, ents: DocEnts, a: int, cs: Seq<Change>)
     requires
         0 <= a < ents.len(), docs_enum(docs, ents), collected(docs, ents, a, cs),
-        tree_inv(docs[ents[a].0@]), !docs[ents[a].0@].staging,
+        tree_inv(docs[ents[a]@]), !docs[ents[a]@].staging,
     ensures collected(docs, ents, a + 1, cs),
 {
     assert forall|i: int| 0 <= i < cs.len() implies key_upto(ents, a + 1, (#[trigger] cs[i]).0@) by {
         assert(key_upto(ents, a, cs[i].0@));
-        let k = choose|k: int| 0 <= k < a && #[trigger] ents[k].0@ == cs[i].0@;
-        assert(0 <= k < a + 1 && ents[k].0@ == cs[i].0@);
+        let k = choose|k: int| 0 <= k < a && #[trigger] ents[k]@ == cs[i].0@;
+        assert(0 <= k < a + 1 && ents[k]@ == cs[i].0@);
     }
 }
 pub proof fn lemma_collected_all(docs: Docs, ents: DocEnts, cs: Seq<Change>)
@@ -597,8 +599,8 @@ pub proof fn lemma_collected_all(docs: Docs, ents: DocEnts, cs: Seq<Change>)
     ensures records_exactly(docs, cs),
 {
     assert forall|uuid: Seq<char>, rev: Revision| #[trigger] staged_entry(docs, uuid, rev) implies has_record(cs, uuid, rev) by {
-        let j = choose|j: int| 0 <= j < ents.len() && #[trigger] ents[j].0@ == uuid;
-        assert(staged_entry(docs, ents[j].0@, rev));
+        let j = choose|j: int| 0 <= j < ents.len() && #[trigger] ents[j]@ == uuid;
+        assert(staged_entry(docs, ents[j]@, rev));
     }
 }
 
